@@ -5,9 +5,9 @@
    net.split_host_port, on character level for the host:port part (texts are
    sequences of character codes).
 
-   The environment is the choice of the case (Init): host class x port x
-   transport x subset of the transport's settings x integer notation, or a
-   host/port pair for the split/join functions.  One action per function of the
+   The environment is the choice of the case (Init): host class x port
+   {none, 0, 1, 65535} x transport x subset of the transport's settings (Subs)
+   x integer notation, or a host/port pair (x default port) for split/join.  One action per function of the
    code path.  Property: the result is accepted by the contract
    (TargetUriContract), clause by clause.  With Export = TRUE every finished
    case is printed <<"C", ...>> for the harness, which concretises it and runs
@@ -21,7 +21,7 @@
                                   IPv6 host                                     *)
 EXTENDS TargetUriContract, SequencesExt, TLC
 
-CONSTANTS Cases, Export,
+CONSTANTS Subs(_), HostClasses, HostOf(_), Export,
           Dev_S27_Ipv6JoinLiteral, Dev_S28_PortZero, Dev_N1_Ipv6NoPortUnbracketed
 
 VARIABLES case, netloc, parsed, cfg, pc
@@ -130,7 +130,19 @@ ConfigOf(c) ==
 
 ----------------------------------------------------------------------------
 None == [t |-> "none"]
-Init == /\ case \in Cases
+Ports  == {NoPort, 0, 1, 65535}
+Notas  == {"scanner", "dec", "hex", "oct", "bin", "mixed"}
+Trs    == {"doip", "hsfz", "isotp"}
+Dflts  == {NoPort, 7}
+\* nested quantifiers, not one big set of records: TLC enumerates them lazily
+InitCase ==
+  \/ \E tr \in Trs, hc \in HostClasses, p \in Ports, n \in Notas : \E fs \in Subs(tr) :
+       case = [mode |-> "uri", tr |-> tr, hc |-> hc, host |-> HostOf(hc), port |-> p, fields |-> fs, nota |-> n]
+  \/ \E hc \in HostClasses, p \in Ports \ {NoPort}, d \in Dflts :
+       case = [mode |-> "hp", hc |-> hc, host |-> HostOf(hc), port |-> p, dflt |-> d]
+  \/ \E hc \in HostClasses, p \in Ports, d \in Dflts :
+       case = [mode |-> "split", hc |-> hc, host |-> HostOf(hc), port |-> p, dflt |-> d]
+Init == /\ InitCase
         /\ netloc = <<>> /\ parsed = None /\ cfg = None /\ pc = "start"
 
 \* mode "uri": TargetURI.from_parts(...) -> str
